@@ -114,7 +114,7 @@ class Gen:
         for f in fl:
             k = f["kind"]
             heavy = k in ("t", "tv", "u", "uv", "nt")
-            if not f["req"] and (r.random() < 0.3 or (deep and heavy)):
+            if not f["req"] and (r.random() < getattr(self, "skip", 0.3) or (deep and heavy)):
                 continue
             if k == "s":
                 v = Node("i", size=f["a"], align=max(1, f["b"]), data=rbytes(r, f["a"]))
@@ -122,7 +122,12 @@ class Gen:
                 v = self.string()
             elif k == "v":
                 n = r.choice([0, 0, 1, 2, 3, 5] + ([64, 1000] if self.big else []))
-                v = Node("v", esz=f["a"], align=max(1, f["b"]), data=rbytes(r, n * f["a"]))
+                data = rbytes(r, n * f["a"])
+                if n and f["a"] in (4, 8) and r.random() < 0.2:
+                    # one element with only the top bit set: -0.0 for float / double vectors (stored, printed as -0, must come back as -0.0), MIN for integers
+                    j = r.randrange(n) * f["a"]
+                    data = data[:j] + b"\0" * (f["a"] - 1) + b"\x80" + data[j + f["a"]:]
+                v = Node("v", esz=f["a"], align=max(1, f["b"]), data=data)
             elif k == "sv":
                 v = Node("o", items=[self.string() for _ in range(self.ocount(False, [0, 1, 2, 3]))])
             elif k == "t":
